@@ -4,7 +4,7 @@
    theorem is for all byte strings / entry lists / allocation counters. *)
 From Verif Require Import Lib.Base Decode.GoSlice Decode.GoSliceFacts Decode.Node Decode.NodeProofs
   Decode.ProofEntries Decode.ProofEntriesProofs Decode.RoundTrip Decode.Quote Decode.QuoteProofs
-  Decode.KeyFormat Decode.KeyFormatProofs Decode.Misc Decode.MiscProofs
+  Decode.KeyFormat Decode.KeyFormatProofs Decode.Misc Decode.MiscProofs Decode.Cbor Decode.CborProofs
   Gen.DecodeConsts Gen.QuoteConsts Gen.MiscConsts.
 
 Theorem gen_layout_expected :
@@ -259,3 +259,41 @@ Theorem restore_chunk_total : forall digest_ok evs s,
   snd (restore_chunk digest_ok evs s) <= s + events_len evs.
 Proof. exact restore_chunk_total_l. Qed.
 Print Assumptions restore_chunk_total.
+
+(* ---------- strict CBOR profile: a recogniser as SPECIFICATION (not a verified library) ----------
+   cbor_valid follows the validity pass that cbor.Unmarshal runs first (definite
+   lengths only, tags forbidden, nesting <= 32, array/map sizes <= 10^7, all
+   regenerated from go/common/cbor/cbor.go and the library defaults).  Acceptance
+   by the recogniser is NECESSARY for cbor.Unmarshal to accept (checked by the
+   correspondence stream), not sufficient. *)
+Theorem gen_cbor_profile_expected :
+  decOptions_IndefLength_IndefLengthForbidden = true /\ decOptions_TagsMd_TagsForbidden = true /\
+  decOptions_DupMapKey_DupMapKeyEnforcedAPF = true /\ decOptions_MaxNestedLevels = 32 /\
+  decOptions_MaxArrayElements = 10000000 /\ decOptions_MaxMapPairs = 10000000 /\
+  maxMessageSize = 67108864.
+Proof. exact CborProofs.gen_cbor_profile_expected. Qed.
+Print Assumptions gen_cbor_profile_expected.
+
+(* fuel 2*len+2 (one unit per recursive call) is never exhausted: linear time *)
+Theorem cbor_recognizer_total : forall data, cbor_valid data <> WFuel.
+Proof. exact cbor_recognizer_total_l. Qed.
+Print Assumptions cbor_recognizer_total.
+
+Theorem cbor_recognizer_bounded : forall data off d,
+  cbor_valid data = WOk (off, d) ->
+  0 < off /\ off <= dlen data /\ d <= decOptions_MaxNestedLevels.
+Proof. exact cbor_recognizer_bounded_l. Qed.
+Print Assumptions cbor_recognizer_bounded.
+
+Theorem cbor_examples :
+  wres_class (cbor_valid [155; 255; 255; 255; 255; 255; 255; 255; 255]) = C_OVERFLOW /\
+  wres_class (cbor_valid [154; 0; 152; 150; 129]) = C_ARRAY /\
+  wres_class (cbor_valid [154; 0; 152; 150; 128; 1]) = C_UEOF /\
+  wres_class (cbor_valid [91; 0; 0; 0; 1; 0; 0; 0; 0]) = C_UEOF /\
+  wres_class (cbor_valid [159; 255]) = C_INDEF /\
+  wres_class (cbor_valid [192; 0]) = C_TAG /\
+  wres_class (cbor_valid (repeat 129 32 ++ [0])) = 0 /\
+  wres_class (cbor_valid (repeat 129 33 ++ [0])) = C_NESTED /\
+  cbor_valid [162; 1; 2; 1; 3; 255] = WOk (5, 1).
+Proof. exact CborProofs.cbor_examples. Qed.
+Print Assumptions cbor_examples.
